@@ -211,7 +211,12 @@ def run(ck):
     conts = [i for i in pf.walk(body) if pf.nodes[i]['k'] == 'ContinueStmt']
     keep = []
     for c in conts:
-        blk = [a for a in pf.ancestors(c) if pf.nodes[a]['k'] == 'CompoundStmt'][0]
+        # the branch the `continue` ends: the then/else statement of the nearest enclosing if (braced or not)
+        blk = c
+        for a in pf.ancestors(c):
+            if pf.nodes[a]['k'] == 'IfStmt':
+                break
+            blk = a
         drops = any(pf.nodes[j].get('callee', '').endswith('::push_back') and 'completed' in pf.text(j) for j in pf.walk(blk))
         if not drops:
             keep.append(c)
